@@ -862,3 +862,26 @@ package core
 //@ func (*registrationServiceImpl).InitFlow
 //@   modifies nothing
 //@   ensures r0 == s.initFlow
+
+// ---------------------------------------------------------------------------------------------
+// C18: credentials are kept per token; a restore replaces the one stored set
+// ---------------------------------------------------------------------------------------------
+//@ spec credsOf(c CredentialsService) *credentialsServiceImpl = c.(*credentialsServiceImpl)
+//@ typeinv credentialsServiceImpl c
+//@   inv c.credentials != nil
+//@ func NewCredentialsService
+//@   modifies nothing
+//@   ensures [empty] typeis(r0, *credentialsServiceImpl) && fresh(r0) && len(credsOf(r0).credentials) == 0 && (forall k string :: !has(credsOf(r0).credentials, k))
+//@ func (*credentialsServiceImpl).SetCredentials
+//@   modifies mapof(c.credentials)
+//@   ensures [stored-under-the-token] has(c.credentials, token) && c.credentials[token].AwsKey == awsKey && c.credentials[token].AwsSecret == awsSecret && c.credentials[token].AwsSession == awsSession
+//@   ensures [other-tokens-untouched] forall k string :: k != token ==> has(c.credentials, k) == old(has(c.credentials, k)) && c.credentials[k] == old(c.credentials[k])
+//@ func (*credentialsServiceImpl).GetCredentials
+//@   modifies nothing
+//@   ensures [only-for-the-token] !has(c.credentials, token) ==> r0 == nil && r1 == ErrCredentialsNotFound
+//@   ensures [the-stored-set] has(c.credentials, token) ==> r1 == nil && r0 != nil && r0.AwsKey == c.credentials[token].AwsKey && r0.AwsSecret == c.credentials[token].AwsSecret && r0.AwsSession == c.credentials[token].AwsSession
+//@ func (*credentialsServiceImpl).UpdateCredentials
+//@   modifies mapof(c.credentials)
+//@   ensures [needs-exactly-one-set] old(len(c.credentials)) != 1 ==> r0 != nil && (forall k string :: has(c.credentials, k) == old(has(c.credentials, k)) && c.credentials[k] == old(c.credentials[k]))
+//@   ensures [most-recent-restore-wins] old(len(c.credentials)) == 1 ==> r0 == nil && (forall k string :: has(c.credentials, k) == old(has(c.credentials, k))) && (exists t string :: old(has(c.credentials, t)) && c.credentials[t].AwsKey == awsKey && c.credentials[t].AwsSecret == awsSecret && c.credentials[t].AwsSession == awsSession && (forall k string :: k != t ==> c.credentials[k] == old(c.credentials[k])))
+//@   loop range c.credentials: invariant [token-is-a-stored-key] (forall k string :: visited[k] ==> has(c.credentials, k)) && ((forall k string :: !visited[k]) || (visited[token] && has(c.credentials, token))) && (forall k string :: has(c.credentials, k) == old(has(c.credentials, k)) && c.credentials[k] == old(c.credentials[k])) && len(c.credentials) == old(len(c.credentials))
